@@ -131,6 +131,10 @@ func parseLinkReferenceDefinition(block text.Reader, pc Context) (int, int) {
 	} else {
 		for i := 0; i < segments.Len(); i++ {
 			s := segments.At(i)
+			if i > 0 {
+				// leading spaces of a continuation line are not part of the paragraph's content
+				s = s.TrimLeftSpace(block.Source())
+			}
 			title = append(title, block.Value(s)...)
 		}
 	}
